@@ -144,6 +144,203 @@ theorem canonItems_erase : ∀ l : List Item, faithfulItems l = true → eraseL 
     simp [canonItems, eraseL, canonItem_erase i h.1, canonItems_erase r h.2]
 end
 
+/-! ### the DOCTYPE declaration -/
+theorem escapeQ_canon (v : Str) : escapeQ v = canonQuote v :: (v ++ [canonQuote v]) := by
+  unfold escapeQ canonQuote
+  split <;> simp
+
+theorem canonExt_spec (p s : Option Str) (id : CExtId) (h : canonExt p s = some id) :
+    ' ' :: id.str = printExtId p s ∧ id.erase.1 = p ∧ some id.erase.2 = s := by
+  cases p with
+  | none =>
+    cases s with
+    | none => simp [canonExt] at h
+    | some sv =>
+      simp only [canonExt, Option.some.injEq] at h; subst h
+      simp [CExtId.str, printExtId, escapeQ_canon, kwSYSTEM, CExtId.erase]
+  | some pv =>
+    cases s with
+    | none => simp [canonExt] at h
+    | some sv =>
+      simp only [canonExt, Option.some.injEq] at h; subst h
+      simp [CExtId.str, printExtId, escapeQ_canon, kwPUBLIC, CExtId.erase]
+
+theorem sepBy_tokens : ∀ (f : Str) (rest : List Str), sepBy ['|'] (f :: rest) = f ++ tokensText (rest.map fun n => ([], [], n))
+  | f, [] => by simp [sepBy, tokensText, sepTextG]
+  | f, g :: r => by
+    have ih := sepBy_tokens g r
+    simp only [sepBy, ih, List.map_cons, tokensText, sepTextG, List.nil_append, id, List.append_assoc, List.cons_append]
+
+theorem canonAttType_str (t : AttType) : (canonAttType t).str = printAttType t := by
+  cases t with
+  | «notation» ns =>
+    cases ns with
+    | nil => simp [canonAttType, canonTokens, CAttType.str, printAttType, sepBy, tokensText, sepTextG, kwNOTATIONty]
+    | cons f r => simp [canonAttType, canonTokens, CAttType.str, printAttType, sepBy_tokens, kwNOTATIONty]
+  | enumeration ts =>
+    cases ts with
+    | nil => simp [canonAttType, canonTokens, CAttType.str, printAttType, sepBy, tokensText, sepTextG]
+    | cons f r => simp [canonAttType, canonTokens, CAttType.str, printAttType, sepBy_tokens]
+  | _ => rfl
+
+theorem canonTokens_erase (ns : List Str) (h : ns ≠ []) : (canonTokens ns).1 :: (canonTokens ns).2.map (·.2.2) = ns := by
+  cases ns with
+  | nil => exact absurd rfl h
+  | cons f r => simp [canonTokens, List.map_map, Function.comp_def]
+
+theorem canonAttType_erase (t : AttType) (h : okAttType (canonAttType t) = true) : (canonAttType t).erase = t := by
+  cases t with
+  | «notation» ns =>
+    have hne : ns ≠ [] := by
+      intro e; subst e
+      simp [canonAttType, canonTokens, okAttType, okNameTok] at h
+    simp only [canonAttType, CAttType.erase, canonTokens_erase ns hne]
+  | enumeration ts =>
+    have hne : ts ≠ [] := by
+      intro e; subst e
+      simp [canonAttType, canonTokens, okAttType, okNameTok] at h
+    simp only [canonAttType, CAttType.erase, canonTokens_erase ts hne]
+  | _ => rfl
+
+theorem canonDefault_str (d : AttDefault) : (canonDefault d).str = printDefault d := by
+  cases d with
+  | required => rfl
+  | implied => rfl
+  | value f vs => cases f <;> simp [canonDefault, CDefault.str, printDefault, escapeQ_canon, kwFIXED]
+
+theorem canonDefault_erase (d : AttDefault) : (canonDefault d).erase = d := by
+  cases d with
+  | required => rfl
+  | implied => rfl
+  | value f vs => cases f <;> simp [canonDefault, CDefault.erase]
+
+theorem canonAttDef_str (a : AttDef) :
+    (canonAttDef a).str = ' ' :: a.name.text ++ ' ' :: printAttType a.ty ++ ' ' :: printDefault a.dflt := by
+  simp [canonAttDef, CAttDef.str, canonAttType_str, canonDefault_str]
+
+theorem canonAttDefs_text (defs : List AttDef) :
+    attDefsText (defs.map canonAttDef) = defs.flatMap (fun d => ' ' :: d.name.text ++ ' ' :: printAttType d.ty ++ ' ' :: printDefault d.dflt) := by
+  induction defs with
+  | nil => rfl
+  | cons a r ih => simp only [List.map_cons, attDefsText, canonAttDef_str, ih, List.flatMap_cons]
+
+theorem canonAttDefs_erase : ∀ (defs : List AttDef), (defs.map canonAttDef).all okAttDef = true → (defs.map canonAttDef).map CAttDef.erase = defs
+  | [], _ => rfl
+  | a :: r, h => by
+    simp only [List.map_cons, List.all_cons, Bool.and_eq_true] at h
+    obtain ⟨_, _, _, hty, _, _⟩ := okAttDef_parts h.1
+    have := canonAttDefs_erase r h.2
+    simp only [List.map_cons, this, List.cons.injEq, and_true]
+    simp only [canonAttDef] at hty
+    simp [canonAttDef, CAttDef.erase, canonAttType_erase a.ty hty, canonDefault_erase]
+
+theorem canonDtdItem_spec (i : DtdItem) (c : CDtdItem) (h : canonDtdItem i = some c) (hok : okDtdItem c = true) (hf : faithfulDtd i = true) :
+    c.str = printDtdItem i ∧ c.erase = some i := by
+  cases i with
+  | attlist e defs =>
+    simp only [canonDtdItem, Option.some.injEq] at h; subst h
+    obtain ⟨_, _, hd, _⟩ := okDtd_attlist hok
+    exact ⟨by simp [CDtdItem.str, printDtdItem, canonAttDefs_text, kwATTLIST], by simp [CDtdItem.erase, canonAttDefs_erase defs hd]⟩
+  | entity n d =>
+    cases d with
+    | internal vs =>
+      simp only [canonDtdItem, Option.some.injEq] at h; subst h
+      exact ⟨by simp [CDtdItem.str, CEntDef.str, printDtdItem, escapeQ_canon, kwENTITY], by simp [CDtdItem.erase, CEntDef.erase]⟩
+    | external p s nd =>
+      simp only [canonDtdItem, Option.map_eq_some_iff] at h
+      obtain ⟨id, hid, rfl⟩ := h
+      obtain ⟨h1, h2, h3⟩ := canonExt_spec p (some s) id hid
+      simp only [Option.some.injEq] at h3
+      refine ⟨?_, ?_⟩
+      · cases nd <;> simp [CDtdItem.str, CEntDef.str, printDtdItem, kwENTITY, kwNDATA, ← h1]
+      · cases nd <;> simp [CDtdItem.erase, CEntDef.erase, h2, h3]
+  | «notation» n p s =>
+    cases p with
+    | none =>
+      cases s with
+      | none => simp [canonDtdItem, canonExt] at h
+      | some sv =>
+        simp only [canonDtdItem, Option.map_eq_some_iff] at h
+        obtain ⟨id, hid, rfl⟩ := h
+        obtain ⟨h1, h2, h3⟩ := canonExt_spec none (some sv) id hid
+        exact ⟨by simp [CDtdItem.str, CNotId.str, printDtdItem, kwNOTATION, ← h1], by simp [CDtdItem.erase, h2, h3]⟩
+    | some pv =>
+      cases s with
+      | none =>
+        simp only [canonDtdItem, Option.some.injEq] at h; subst h
+        exact ⟨by simp [CDtdItem.str, CNotId.str, printDtdItem, printExtId, escapeQ_canon, kwNOTATION, kwPUBLIC], by simp [CDtdItem.erase]⟩
+      | some sv =>
+        simp only [canonDtdItem, Option.map_eq_some_iff] at h
+        obtain ⟨id, hid, rfl⟩ := h
+        obtain ⟨h1, h2, h3⟩ := canonExt_spec (some pv) (some sv) id hid
+        exact ⟨by simp [CDtdItem.str, CNotId.str, printDtdItem, kwNOTATION, ← h1], by simp [CDtdItem.erase, h2, h3]⟩
+  | pi t d =>
+    simp only [canonDtdItem, Option.some.injEq] at h; subst h
+    refine ⟨?_, by simp [CDtdItem.erase, piData_canon d (by simpa [faithfulDtd] using hf)]⟩
+    cases d <;> simp [CDtdItem.str, piText, printDtdItem, printPI, canonPIBody]
+
+theorem canonDtdItems_spec : ∀ (items : List DtdItem) (cs : List CDtdItem), canonDtdItems items = some cs → cs.all okDtdItem = true →
+    items.all faithfulDtd = true → dtdText cs = items.flatMap printDtdItem ∧ cs.filterMap CDtdItem.erase = items
+  | [], cs, h, _, _ => by simp only [canonDtdItems, Option.some.injEq] at h; subst h; exact ⟨rfl, rfl⟩
+  | i :: r, cs, h, hok, hf => by
+    simp only [canonDtdItems] at h
+    split at h
+    · next c cs' h1 h2 =>
+      simp only [Option.some.injEq] at h; subst h
+      simp only [List.all_cons, Bool.and_eq_true] at hok hf
+      obtain ⟨a1, a2⟩ := canonDtdItem_spec i c h1 hok.1 hf.1
+      obtain ⟨b1, b2⟩ := canonDtdItems_spec r cs' h2 hok.2 hf.2
+      exact ⟨by simp [dtdText, a1, b1], by simp [List.filterMap_cons, a2, b2]⟩
+    · cases h
+
+theorem canonDtdItems_nil_iff (items : List DtdItem) (cs : List CDtdItem) (h : canonDtdItems items = some cs) : cs = [] ↔ items = [] := by
+  cases items with
+  | nil => simp only [canonDtdItems, Option.some.injEq] at h; subst h; simp
+  | cons i r =>
+    simp only [canonDtdItems] at h
+    split at h
+    · simp only [Option.some.injEq] at h; subst h; simp
+    · cases h
+
+theorem canonDoctype_spec (d : Doctype) (cd : CDoctype) (h : canonDoctype d = some cd) (hok : okDoctype cd = true)
+    (hf : d.kids.all faithfulDtd = true) : cd.str = printDoctype d ∧ cd.erase = d := by
+  obtain ⟨_, _, _, _, hsub⟩ := okDoctype_parts hok
+  obtain ⟨name, pub, sys, kids⟩ := d
+  unfold canonDoctype at h
+  simp only at h hf
+  split at h
+  · next ext items hext hitems =>
+    simp only [Option.some.injEq] at h; subst h
+    -- the external identifier
+    have hE : extText ext = printExtId pub sys ∧ extErasePub ext = pub ∧ extEraseSys ext = sys := by
+      unfold canonDoctypeExt at hext
+      split at hext
+      · simp only [Option.some.injEq] at hext; subst hext; simp [extText, printExtId, extErasePub, extEraseSys]
+      · next p s _ =>
+        simp only [Option.map_eq_some_iff] at hext
+        obtain ⟨id, hid, rfl⟩ := hext
+        obtain ⟨h1, h2, h3⟩ := canonExt_spec _ _ id hid
+        exact ⟨by simp [extText, ← h1], by simpa [extErasePub] using h2, by simpa [extEraseSys] using h3⟩
+    cases hi : items with
+    | nil =>
+      have hk : kids = [] := (canonDtdItems_nil_iff kids items hitems).mp hi
+      subst hk
+      refine ⟨by simp [CDoctype.str, wsBeforeSubset, subsetOf, subsetText, printDoctype, hE.1, kwDOCTYPE], ?_⟩
+      simp only [CDoctype.erase, subsetOf, subsetErase, hE.2.1, hE.2.2]
+    | cons c cs =>
+      have hk : kids ≠ [] := fun e => by
+        have := (canonDtdItems_nil_iff kids items hitems).mpr e
+        rw [hi] at this; cases this
+      rw [hi] at hitems hsub
+      obtain ⟨b1, _, _⟩ := hsub (c :: cs) [] rfl
+      obtain ⟨i1, i2⟩ := canonDtdItems_spec kids (c :: cs) hitems b1 hf
+      refine ⟨?_, ?_⟩
+      · cases kids with
+        | nil => exact absurd rfl hk
+        | cons k ks => simp [CDoctype.str, wsBeforeSubset, subsetOf, subsetText, printDoctype, hE.1, kwDOCTYPE, i1]
+      · simp only [CDoctype.erase, subsetOf, subsetErase, hE.2.1, hE.2.2, i2]
+  · cases h
+
 /-! ### documents -/
 theorem canonMiscs_spec : ∀ (ts : List TopItem) (ms : List CMisc), canonMiscs ts = some ms → ts.all faithfulTop = true →
     miscText ms = ts.flatMap printTop ∧ ms.filterMap CMisc.erase = ts
@@ -196,13 +393,59 @@ theorem canonTop_spec : ∀ (ts : List TopItem) (b : List CMisc) (e : CItem) (a 
     · simp only [List.filterMap_cons, CMisc.erase, List.cons_append, piData_canon d (by simpa [faithfulTop] using hf.1)]
       rw [i2]
 
+theorem canonTopD_spec : ∀ (ts : List TopItem) (b : List CMisc) (dt : Option (CDoctype × List CMisc)) (e : CItem) (a : List CMisc),
+    canonTopD ts = some (b, dt, e, a) → ts.all faithfulTop = true → okItem e = true →
+    (∀ cd ms, dt = some (cd, ms) → okDoctype cd = true) →
+    miscText b ++ (doctypeText dt ++ (e.str ++ miscText a)) = ts.flatMap printTop ∧
+    b.filterMap CMisc.erase ++ (doctypeErase dt ++ ([TopItem.elem e.erase] ++ a.filterMap CMisc.erase)) = ts
+  | [], b, dt, e, a, h, _, _, _ => by simp [canonTopD] at h
+  | .elem e0 :: r, b, dt, e, a, h, hf, hok, _ => by
+    simp only [canonTopD, Option.map_eq_some_iff, Prod.mk.injEq] at h
+    obtain ⟨a', h1, rfl, rfl, rfl, rfl⟩ := h
+    simp only [List.all_cons, Bool.and_eq_true] at hf
+    obtain ⟨i1, i2⟩ := canonMiscs_spec r a' h1 hf.2
+    exact ⟨by simp [miscText, doctypeText, printTop, canonItem_str e0 hok, i1],
+      by simp [doctypeErase, canonItem_erase e0 (by simpa [faithfulTop] using hf.1), i2]⟩
+  | .comment s :: r, b, dt, e, a, h, hf, hok, hdt => by
+    simp only [canonTopD, Option.map_eq_some_iff, Prod.mk.injEq] at h
+    obtain ⟨⟨b', dt', e', a'⟩, h1, rfl, rfl, rfl, rfl⟩ := h
+    simp only [List.all_cons, Bool.and_eq_true] at hf
+    obtain ⟨i1, i2⟩ := canonTopD_spec r b' dt' e' a' h1 hf.2 hok hdt
+    refine ⟨by simp [miscText, CMisc.str, commentText, printTop, ← i1], ?_⟩
+    simp only [List.filterMap_cons, CMisc.erase, List.cons_append, List.cons.injEq, true_and]
+    exact i2
+  | .pi t d :: r, b, dt, e, a, h, hf, hok, hdt => by
+    simp only [canonTopD, Option.map_eq_some_iff, Prod.mk.injEq] at h
+    obtain ⟨⟨b', dt', e', a'⟩, h1, rfl, rfl, rfl, rfl⟩ := h
+    simp only [List.all_cons, Bool.and_eq_true] at hf
+    obtain ⟨i1, i2⟩ := canonTopD_spec r b' dt' e' a' h1 hf.2 hok hdt
+    refine ⟨?_, ?_⟩
+    · cases d <;> simp [miscText, CMisc.str, piText, printTop, printPI, canonPIBody, ← i1]
+    · simp only [List.filterMap_cons, CMisc.erase, List.cons_append, piData_canon d (by simpa [faithfulTop] using hf.1), List.cons.injEq, true_and]
+      exact i2
+  | .doctype d :: r, b, dt, e, a, h, hf, hok, hdt => by
+    simp only [canonTopD] at h
+    split at h
+    · next cd b2 e2 a2 h1 h2 =>
+      simp only [Option.some.injEq, Prod.mk.injEq] at h
+      obtain ⟨rfl, rfl, rfl, rfl⟩ := h
+      simp only [List.all_cons, Bool.and_eq_true] at hf
+      obtain ⟨i1, i2⟩ := canonTop_spec r b2 e2 a2 h2 hf.2 hok
+      obtain ⟨j1, j2⟩ := canonDoctype_spec d cd h1 (hdt cd b2 rfl) (by simpa [faithfulTop] using hf.1)
+      refine ⟨?_, ?_⟩
+      · simp [miscText, doctypeText, printTop, j1, ← i1]
+      · simp only [List.filterMap_nil, List.nil_append, doctypeErase, j2, List.cons_append, List.cons.injEq, true_and]
+        simpa using i2
+    · cases h
+
 theorem canon_decl_case (minor : Str) (en : Option Str) (sd : Option Bool) (ks : List TopItem) (b : List CMisc) (e : CItem) (a : List CMisc)
+    (dt : Option (CDoctype × List CMisc))
     (hd1 : ∀ x, (some (⟨[' '], [], [], '"', minor, en.map (fun e => ([' '], [], [], '"', e)), sd.map (fun b => ([' '], [], [], '"', b)), []⟩ : CDecl)) = some x → okDecl x = true)
-    (i1 : miscText b ++ (e.str ++ miscText a) = ks.flatMap printTop)
-    (i2 : b.filterMap CMisc.erase ++ [TopItem.elem e.erase] ++ a.filterMap CMisc.erase = ks) :
+    (i1 : miscText b ++ (doctypeText dt ++ (e.str ++ miscText a)) = ks.flatMap printTop)
+    (i2 : b.filterMap CMisc.erase ++ (doctypeErase dt ++ ([TopItem.elem e.erase] ++ a.filterMap CMisc.erase)) = ks) :
     printDoc ⟨some ('1' :: '.' :: minor), en, sd, ks⟩ =
-      (⟨some ⟨[' '], [], [], '"', minor, en.map (fun e => ([' '], [], [], '"', e)), sd.map (fun b => ([' '], [], [], '"', b)), []⟩, b, e, a⟩ : CDoc).str ∧
-    (⟨some ⟨[' '], [], [], '"', minor, en.map (fun e => ([' '], [], [], '"', e)), sd.map (fun b => ([' '], [], [], '"', b)), []⟩, b, e, a⟩ : CDoc).erase =
+      (⟨some ⟨[' '], [], [], '"', minor, en.map (fun e => ([' '], [], [], '"', e)), sd.map (fun b => ([' '], [], [], '"', b)), []⟩, b, e, a, dt⟩ : CDoc).str ∧
+    (⟨some ⟨[' '], [], [], '"', minor, en.map (fun e => ([' '], [], [], '"', e)), sd.map (fun b => ([' '], [], [], '"', b)), []⟩, b, e, a, dt⟩ : CDoc).erase =
       ⟨some ('1' :: '.' :: minor), en, sd, ks⟩ := by
   have hx := hd1 _ rfl
   obtain ⟨_, _, _, _, _, _, _, henc, _, _⟩ := okDecl_parts hx
@@ -224,7 +467,7 @@ theorem canon_decl_case (minor : Str) (en : Option Str) (sd : Option Bool) (ks :
       cases sd with
       | none => simp [printDoc, CDoc.str, declText, CDecl.str, encText, sdText, kwVersion, kwEncoding, hn, i1]
       | some bb => cases bb <;> simp [printDoc, CDoc.str, declText, CDecl.str, encText, sdText, kwVersion, kwEncoding, kwStandalone, yesNo, hn, i1]
-  · cases en <;> cases sd <;> simp [CDoc.erase, i2]
+  · cases en <;> cases sd <;> simpa [CDoc.erase] using i2
 
 
 /-- the compact printer writes the canonical concrete document, and that document renders `d` -/
@@ -236,9 +479,10 @@ theorem canonDoc_spec (d : IDoc) (cd : CDoc) (hc : canonDoc d = some cd) (hf : d
   | some decl =>
     rw [hdecl] at hc
     simp only [Option.map_eq_some_iff] at hc
-    obtain ⟨⟨b, e, a⟩, h1, rfl⟩ := hc
+    obtain ⟨⟨b, dt, e, a⟩, h1, rfl⟩ := hc
     obtain ⟨hd1, _, _, _, h5, _, _⟩ := CDoc.ok_parts hok
-    obtain ⟨i1, i2⟩ := canonTop_spec d.kids b e a h1 hf h5
+    have hdt := CDoc.ok_doctype hok
+    obtain ⟨i1, i2⟩ := canonTopD_spec d.kids b dt e a h1 hf h5 (fun cd ms he => (hdt cd ms he).1)
     obtain ⟨v, en, sd, ks⟩ := d
     simp only at i1 i2
     unfold canonDecl at hdecl
@@ -253,7 +497,7 @@ theorem canonDoc_spec (d : IDoc) (cd : CDoc) (hc : canonDoc d = some cd) (hf : d
         obtain ⟨hv2, hv3⟩ := hv
         simp only [Option.some.injEq] at hdecl
         subst hdecl hv2 hv3
-        exact ⟨by simp [printDoc, CDoc.str, declText, i1], by simp [CDoc.erase, i2]⟩
+        exact ⟨by simp [printDoc, CDoc.str, declText, i1], by simpa [CDoc.erase] using i2⟩
     | some vs =>
       split at hdecl
       · next heq => cases heq
@@ -262,7 +506,7 @@ theorem canonDoc_spec (d : IDoc) (cd : CDoc) (hc : canonDoc d = some cd) (hf : d
         subst heq
         simp only [Option.some.injEq] at hdecl
         subst hdecl
-        exact canon_decl_case minor en sd ks b e a hd1 i1 i2
+        exact canon_decl_case minor en sd ks b e a dt hd1 i1 i2
       · cases hdecl
 
 
